@@ -81,6 +81,9 @@ HARNESSES = [
       for (n, sv, f) in (
         ("k_capi_mz_inflate", ["C17", "C06"], ["mz_inflate", "mz_inflateInit2", "mz_inflateEnd", "mz_inflate_oxide", "mz_inflate_init2_oxide", "StreamOxide::try_new", "StreamOxide::into_mz_stream", "MZFlush::new", "as_c_return_code"]),
         ("k_capi_custom_allocators_rejected", ["C17"], ["StreamOxide::try_new"]),
+        ("k_capi_tinfl_mem_to_heap", ["C17"], ["tinfl_decompress_mem_to_heap", "miniz_def_alloc_func", "miniz_def_realloc_func", "miniz_def_free_func"]),
+        ("k_capi_tinfl_decompress", ["C17", "C06"], ["tinfl_decompress"]),
+        ("k_capi_tinfl_mem_to_mem", ["C17"], ["tinfl_decompress_mem_to_mem"]),
       )],
     H("k_decode_huffman_code_overflow_tree", "K-slowdecode", ["C03", "C04", "C05", "C06", "C07"], cost=60, timeout=900,
       fns=["decode_huffman_code", "HuffmanTable::fast_lookup", "HuffmanTable::tree_lookup", "read_byte", "read_u16_le", "end_of_input"],
